@@ -12,6 +12,15 @@ import os
 import vlib
 
 PROPS = "Properties_C09"
+# leaf functions / constants of bump_allocator.c are re-translated from the C source on every run (tools/translate_leaf.py ->
+# coq/gen/Leaf.v, Constants.v) and re-proved equal to the model's (coq/Properties_leaf_bump.v)
+EXTRA_PROPS = ["Properties_leaf_bump"]
+
+
+def REGEN(ctx):
+    vlib.regen_leaf(ctx, ["Bump"])
+
+
 BASE = 0x200000000000
 REGION = 8 << 20
 W = 1 << 64
